@@ -157,10 +157,10 @@ def fresh_request_factories(ctx, repo):
             def is_factory(e, depth=0):
                 """does CALLING the value of `e` construct a request each time?"""
                 if isinstance(e, ast.Lambda):
-                    return makes_request(e.body, fi2.cls)
+                    return makes_request(e.body, repo.instance_cls(fi2.cls))
                 if isinstance(e, ast.Attribute):
                     # a bound method / a builder handed over as the factory: calling it is a call of that function
-                    return makes_request(ast.Call(func=e, args=[], keywords=[]), fi2.cls)
+                    return makes_request(ast.Call(func=e, args=[], keywords=[]), repo.instance_cls(fi2.cls))
                 if isinstance(e, ast.Call) and call_name(e) == "partial" and e.args:
                     return is_factory(e.args[0], depth + 1)    # functools.partial(f, ...): calling it calls f
                 if isinstance(e, ast.Name) and e.id == "create_func":
@@ -170,7 +170,7 @@ def fresh_request_factories(ctx, repo):
                     inner = [x for x in ast.walk(fi2.node) if isinstance(x, (ast.FunctionDef, ast.AsyncFunctionDef)) and x.name == e.id and x is not fi2.node]
                     if len(inner) == 1:
                         rets = [x.value for x in ast.walk(inner[0]) if isinstance(x, ast.Return) and x.value is not None]
-                        return bool(rets) and all(makes_request(x, fi2.cls) for x in rets)
+                        return bool(rets) and all(makes_request(x, repo.instance_cls(fi2.cls)) for x in rets)
                     # a local name bound once to a factory expression
                     binds = [x.value for x in ast.walk(fi2.node) if isinstance(x, ast.Assign) and len(x.targets) == 1 and isinstance(x.targets[0], ast.Name) and x.targets[0].id == e.id]
                     return len(binds) == 1 and depth < 2 and is_factory(binds[0], depth + 1)
@@ -192,7 +192,8 @@ def protocol_get_model(ctx, repo, rule):
     from ..absint import Interp, Native, Obj, Opaque, PyRaise, Undecided
     from .c16 import build_instance
     get = repo.own_method(PROTO, "get")
-    cfgmod = repo.mod("config.py")
+    _idle = repo.cls("_GeckoIdleConfig", False)
+    cfgmod = _idle.mod if _idle is not None else repo.mod("config.py")
     default_budget = repo.try_fold(ast.parse("GeckoConfig.PROTOCOL_RETRY_COUNT", mode="eval").body, get.mod)
     if not isinstance(default_budget, int):
         idle = cfgmod.classes.get("_GeckoIdleConfig")
@@ -442,7 +443,7 @@ def check(ctx):
     # ---- R4 gates -------------------------------------------------------------
     spa = repo.cls("GeckoAsyncSpa")
     n_methods = 0
-    for m in spa.methods.values():
+    for m in repo.all_methods(spa).values():
         g = cfg_of(m)
         sites = []
         for n in g.stmt_nodes():
@@ -454,8 +455,9 @@ def check(ctx):
         if not sites:
             continue
         n_methods += 1
-        if m.qual in UNGATED:
-            ctx.ob("R4", f"{m.qual}::exempt", True, UNGATED[m.qual])
+        lq = f"GeckoAsyncSpa.{m.name}"     # the operation, wherever the hierarchy keeps its body (a mixin of the package)
+        if lq in UNGATED:
+            ctx.ob("R4", f"{m.qual}::exempt", True, UNGATED[lq])
             continue
         for n, c in sites:
             facts = g.iter_guard_atoms(n)
@@ -482,13 +484,13 @@ def check(ctx):
     # for commands although the spa is silent
     irp = repo.own_method("GeckoAsyncSpa", "is_responding_to_pings")
     ev_attrs = sorted({n.attr for n in ast.walk(irp.node) if isinstance(n, ast.Attribute) and isinstance(n.value, ast.Name) and n.value.id == "self" and n.attr not in ("_protocol",)
-                       and not isinstance(getattr(repo.cls("GeckoAsyncSpa").methods.get(n.attr), "node", None), (ast.FunctionDef, ast.AsyncFunctionDef))})
+                       and not isinstance(getattr(repo.all_methods("GeckoAsyncSpa").get(n.attr), "node", None), (ast.FunctionDef, ast.AsyncFunctionDef))})
     if len(ev_attrs) != 1:
         ctx.error(f"{irp.qual}: ping evidence attribute not identified by role ({ev_attrs})")
     else:
         ev = ev_attrs[0]
         n_w = 0
-        for fi2 in repo.cls("GeckoAsyncSpa").methods.values():
+        for fi2 in repo.all_methods("GeckoAsyncSpa").values():
             g2 = cfg_of(fi2)
             for n2 in g2.stmt_nodes():
                 if not assigns_attr_(n2, f"self.{ev}"):
@@ -529,7 +531,7 @@ def check(ctx):
     except (_P5, _U5):
         T_ = None
     if not isinstance(T_, (int, float)):
-        T_ = repo.try_fold(ast.parse("GeckoConfig.PROTOCOL_TIMEOUT_IN_SECONDS", mode="eval").body, repo.mod("config.py"))
+        T_ = repo.try_fold(ast.parse("GeckoConfig.PROTOCOL_TIMEOUT_IN_SECONDS", mode="eval").body, (repo.cls("_GeckoIdleConfig", False) or repo.cls("_GeckoConfig")).mod)
     seen_b = set()
     for cname_, builder_, args_, _exp, _desc in _c04.message_table():
         if builder_ not in ("request", "full_request", "set", "set_value", "keypress") or (cname_, builder_) in seen_b:
